@@ -451,8 +451,16 @@ func (g *G) LetExpr(cur jv.Val, depth int) ast.Expr {
 	l := &ast.Let{}
 	saved := len(g.vars)
 	var bound []boundVar
+	var same []ast.Expr
+	if g.Cfg.Funcs && Chance(t, "samefn-let", 1, 8) {
+		n = rapid.IntRange(2, 3).Draw(t, "nbind-same")
+		same = g.sameFn(cur, depth+1, n)
+	}
 	for i := 0; i < n; i++ {
 		name := Pick(t, "var", []string{"x", "y", "z", "x"})
+		if same != nil {
+			name = []string{"x", "y", "z"}[i]
+		}
 		dup := false
 		for _, b := range l.Names {
 			if b == name {
@@ -463,12 +471,22 @@ func (g *G) LetExpr(cur jv.Val, depth int) ast.Expr {
 			continue
 		}
 		v := g.Expr(cur, depth+1)
+		if same != nil {
+			v = same[i]
+		}
 		l.Names = append(l.Names, name)
 		l.Vals = append(l.Vals, v)
 		bound = append(bound, boundVar{name, g.valueOf(v, cur)})
 	}
 	g.vars = append(g.vars, bound...)
 	l.Body = g.Expr(cur, depth+1)
+	if same != nil && Chance(t, "samefn-body", 2, 3) {
+		refs := make([]ast.Expr, len(l.Names))
+		for i, name := range l.Names {
+			refs[i] = ast.Var(name)
+		}
+		l.Body = &ast.Chain{Head: ast.Head{Kind: ast.HMultiList, Items: refs}}
+	}
 	g.vars = g.vars[:saved]
 	return l
 }
@@ -538,6 +556,9 @@ func (g *G) items(cur jv.Val, depth int) []ast.Expr {
 		}
 		return few
 	}
+	if g.Cfg.Funcs && Chance(g.T, "samefn-items", 1, 10) {
+		return g.sameFn(cur, depth+1, n+1)
+	}
 	out := make([]ast.Expr, n)
 	for i := range out {
 		out[i] = g.Expr(cur, depth+1)
@@ -567,7 +588,99 @@ func (g *G) hashItems(cur jv.Val, depth int) ([]string, []ast.Expr) {
 		keys = append(keys, k)
 		items = append(items, g.Expr(cur, depth+1))
 	}
+	if g.Cfg.Funcs && len(keys) >= 2 && Chance(g.T, "samefn-hash", 1, 6) {
+		items = g.sameFn(cur, depth+1, len(keys))
+	}
 	return keys, items
+}
+
+// arrayPaths lists the field paths (at most three names) from v to arrays.
+func arrayPaths(v jv.Val, prefix []string, paths *[][]string, vals *[]jv.Val) {
+	if v.K == jv.Arr {
+		*paths = append(*paths, append([]string{}, prefix...))
+		*vals = append(*vals, v)
+		return
+	}
+	if v.K != jv.Obj || len(prefix) >= 3 {
+		return
+	}
+	for _, m := range v.O {
+		arrayPaths(m.V, append(prefix, m.K), paths, vals)
+	}
+}
+
+// sameFn draws n calls of one and the same function on views of one and the
+// same value: the whole of it, prefixes, suffixes, copies. Sibling items of a
+// multi-select or bindings of a let that repeat work on overlapping data are
+// what an implementation is tempted to remember between them (and the order
+// in which siblings are evaluated need not be the order in which they are
+// written).
+func (g *G) sameFn(cur jv.Val, depth, n int) []ast.Expr {
+	t := g.T
+	var x *ast.Chain
+	var xv jv.Val
+	var paths [][]string
+	var vals []jv.Val
+	arrayPaths(cur, nil, &paths, &vals)
+	if len(paths) > 0 && Chance(t, "samefn-path", 4, 5) {
+		i := rapid.IntRange(0, len(paths)-1).Draw(t, "samefn-which")
+		x, xv = ast.Cur(), vals[i]
+		for j, name := range paths[i] {
+			if j == 0 {
+				x = ast.F(name)
+			} else {
+				x = x.With(ast.Step{Kind: ast.SField, Name: name})
+			}
+		}
+	} else {
+		var ok bool
+		if x, ok = g.Chain(cur, depth).(*ast.Chain); !ok {
+			x = ast.Cur()
+		}
+		for _, st := range x.Steps {
+			if st.IsProjection() {
+				x = ast.Paren(x)
+				break
+			}
+		}
+		xv = g.valueOf(x, cur)
+	}
+	fns := []string{"length", "reverse", "to_array", "not_null", "type", "to_string"}
+	if xv.K == jv.Arr && len(xv.A) > 0 {
+		nums, strs := true, true
+		for _, e := range xv.A {
+			nums = nums && e.K == jv.Num
+			strs = strs && e.K == jv.Str
+		}
+		if nums {
+			fns = []string{"max", "min", "sum", "avg", "sort", "max", "min"}
+		} else if strs {
+			fns = []string{"max", "min", "sort", "length", "max", "min"}
+		}
+	}
+	fn := Pick(t, "samefn", fns)
+	L := len(xv.A)
+	out := make([]ast.Expr, n)
+	for i := range out {
+		k := int64(rapid.IntRange(1, L+1).Draw(t, "samefn-k"))
+		var v ast.Expr
+		switch rapid.IntRange(0, 7).Draw(t, "samefn-view") {
+		case 0, 1:
+			v = x
+		case 2, 3:
+			v = ast.Paren(x.With(ast.Step{Kind: ast.SSlice, Stop: ast.I64(k)}))
+		case 4:
+			v = ast.Paren(x.With(ast.Step{Kind: ast.SSlice, Start: ast.I64(k - 1)}))
+		case 5:
+			v = ast.Paren(x.With(ast.Step{Kind: ast.SSlice, Stop: ast.I64(-1)}))
+		case 6:
+			v = ast.Paren(x.With(ast.Step{Kind: ast.SSlice, Start: ast.I64(0), Stop: ast.I64(k)}))
+		default:
+			v = ast.Paren(x.With(ast.Step{Kind: ast.SListStar}))
+		}
+		out[i] = ast.Call(fn, ast.A(v))
+	}
+	return out
 }
 
 // rep picks a representative element for directing steps inside a projection.
